@@ -614,6 +614,38 @@ func ruleExpiryPaths(w *core.World, r *core.Report) {
 				if ph, ok := v.(*ssa.Phi); ok && isTTLValue(ph) {
 					okTTL = true
 				}
+				// or computed by a helper the rule base does not know: its returns are 1 and "expiry - now"
+				if c, ok := v.(*ssa.Call); ok {
+					if g := core.ResolveCall(c).Callee; g != nil && core.Transparent != nil && core.Transparent(g) {
+						one, diff := false, false
+						for _, in := range core.OwnInstrs(g) {
+							ret, isRet := in.(*ssa.Return)
+							if !isRet || len(ret.Results) != 1 {
+								continue
+							}
+							for _, rv := range core.RetVals(ret, 0) {
+								if isConstInt(1)(rv) {
+									one = true
+								}
+								if b, isB := rv.(*ssa.BinOp); isB && b.Op == token.SUB {
+									if fieldNameOfLoad(core.Unwrap(b.X)) == "ExpireAt" {
+										diff = true
+									}
+									if par, isP := b.X.(*ssa.Parameter); isP {
+										for i, q := range g.Params {
+											if q == par && i < len(c.Call.Args) && fieldNameOfLoad(core.Unwrap(c.Call.Args[i])) == "ExpireAt" {
+												diff = true
+											}
+										}
+									}
+								}
+							}
+						}
+						if one && diff {
+							okTTL = true
+						}
+					}
+				}
 				return true
 			})
 		}
